@@ -13,6 +13,7 @@ import (
 	"regexp"
 	"runtime"
 	"runtime/debug"
+	"runtime/metrics"
 	"strconv"
 	"strings"
 	"syscall"
@@ -132,7 +133,7 @@ type bytesRes struct {
 }
 
 type constructRes struct {
-	Outcome  string `json:"o"` // "ok" | "alloc-error" | "rejected" | "panic" | "skipped-large"
+	Outcome  string `json:"o"` // "ok" | "alloc-error" | "rejected" | "panic" | "skipped-large" | "runaway"
 	Detail   string `json:"d,omitempty"`
 	Frame    string `json:"fr,omitempty"`
 	NP       uint32 `json:"np"`
@@ -576,7 +577,10 @@ func (nullStorage) Open(name string, size int64) (storage.File, bool, error) {
 }
 func (nullStorage) RootDir() string { return "/null" }
 
-const maxConstructPieces = 4096
+const (
+	maxConstructPieces = 4096
+	runawayBytes       = 8 << 20 // + 4 KiB per piece
+)
 
 func runConstruct(j job) (res *constructRes) {
 	res = &constructRes{}
@@ -604,9 +608,39 @@ func runConstruct(j job) (res *constructRes) {
 		res.Outcome, res.Detail = "alloc-error", al.Error.Error()
 		return
 	}
-	old := debug.SetGCPercent(-1) // a runaway loop should reach the address-space limit quickly
+	// A terminating construction of <= 4096 pieces over a handful of files allocates well under 1 MiB
+	// (a Piece is 80 bytes, a file section 64, and there are at most pieces+files sections).
+	// A watchdog on a second thread reads the allocation counter (no stop-the-world) and ends the
+	// process as soon as the construction has allocated more than runawayBytes: the verdict depends on the
+	// amount allocated, never on time. The address-space rlimit and the coordinator's wall budget remain
+	// as backstops (a loop that spins without allocating).
+	runtime.GOMAXPROCS(2)
+	old := debug.SetGCPercent(-1)
+	stop := make(chan struct{})
+	go func() {
+		sample := []metrics.Sample{{Name: "/gc/heap/allocs:bytes"}}
+		metrics.Read(sample)
+		start := sample[0].Value.Uint64()
+		for {
+			select {
+			case <-stop:
+				return
+			default:
+			}
+			metrics.Read(sample)
+			if d := sample[0].Value.Uint64() - start; d > runawayBytes+4096*uint64(info.NumPieces) {
+				res.Outcome = "runaway"
+				res.Detail = fmt.Sprintf("allocated %d bytes and still running", d)
+				b, _ := json.Marshal(res)
+				core.ExitCrash(b)
+			}
+			time.Sleep(100 * time.Microsecond)
+		}
+	}()
 	pieces := piece.NewPieces(info, al.Files)
+	close(stop)
 	debug.SetGCPercent(old)
+	runtime.GOMAXPROCS(1)
 	res.Pieces = len(pieces)
 	for i := range pieces {
 		res.Sections += int64(len(pieces[i].Data))
